@@ -327,13 +327,14 @@ Definition na_marshal (router solicited override : bool) (tip tmac : bytes) : re
      b[24] = 2  -- DEFECT (#11): the source link-layer address option is type 1
      b[25] = 1; copy(b[26:], sourceLLA) *)
 Definition NS_OPT_TYPE : N := 2.
-Definition ns_marshal (tip slla : bytes) : res slice :=
+Definition ns_marshal_ty (ty : N) (tip slla : bytes) : res slice :=
   (b <- Ok (mkSlice (repeat 0 32) 32) ;;
    b <- seti b 0 135 ;;
    b <- copyfrom b 8 tip ;;
-   b <- seti b 24 NS_OPT_TYPE ;;
+   b <- seti b 24 ty ;;
    b <- seti b 25 1 ;;
    copyfrom b 26 slla)%res.
+Definition ns_marshal (tip slla : bytes) : res slice := ns_marshal_ty NS_OPT_TYPE tip slla.
 
 (* getters of ICMP6NeighborAdvertisement / ICMP6NeighborSolicitation *)
 Definition nd_is_valid (p : slice) : bool := Nat.leb 24 (len p).
